@@ -17,8 +17,8 @@ import (
 // Tracing hooks for the verification harness in /verif (build tag "verif"):
 // one event per printer-pool operation, emitted after newPrinter's
 // re-initialisation ("get") and before the printer is handed back to the pool
-// ("put") or dropped because its buffer is too large ("drop"); "gc" when a printer object is about to be
-// collected (outside the order of calls).
+// ("put") or dropped because its buffer is too large ("drop"). VerifGC reports printer objects about to be
+// collected.
 
 const verifOn = true
 
@@ -44,6 +44,10 @@ type VerifPoolEvent struct {
 // VerifPoolSink receives the events; nil (the default) disables tracing.
 var VerifPoolSink func(ev VerifPoolEvent)
 
+// VerifGC holds a func(pid uint64) that is told when a printer object is about to be collected. It is called on
+// the finalizer goroutine at any time, hence an atomic value and not a plain variable like the sinks.
+var VerifGC atomic.Value
+
 var verifSeq int64
 
 // Printer identities: an address can be reused once an abandoned printer has been
@@ -62,10 +66,10 @@ func verifID(p *pp) uint64 {
 	verifIDs.Store(key, id)
 	runtime.SetFinalizer(p, func(q *pp) {
 		verifIDs.Delete(uintptr(unsafe.Pointer(q)))
-		// "gc": the object is about to be collected (a printer abandoned by a propagating panic, or one dropped by the
-		// pool) and its memory may be handed to any other object afterwards; not part of the order of calls (Seq 0)
-		if sink := VerifPoolSink; sink != nil {
-			sink(VerifPoolEvent{Ev: "gc", Pid: id})
+		// the object is about to be collected (a printer abandoned by a propagating panic, or one dropped by the
+		// pool) and its memory may be handed to any other object afterwards
+		if f, ok := VerifGC.Load().(func(pid uint64)); ok && f != nil {
+			f(id)
 		}
 	})
 	return id
